@@ -16,6 +16,7 @@ from vlib.listsem import (
     N,
     draw_name_or_absent,
     draw_pred,
+    draw_resub,
     draw_src,
     draw_sub,
     draw_timeline,
@@ -52,6 +53,10 @@ RULE = (
     "sequences at the same tick both consistent orders (first-before-second, second-before-first) are accepted. "
     "Non-trivial: a value was expected and differs from the input list, or a boundary class (b:*: empty input, default or "
     "seed None/absent, default used, short-circuit, second element of single, duplicate keys, ties) is hit. "
+    "In about a third of the cold/sync cases the same built observable is subscribed a second time (after termination, "
+    "overlapping at a later tick, or right after disposing the first subscription early: the disposed probe must hold a "
+    "prefix of its expected trace containing everything before the dispose tick) and the same oracle, shifted to the "
+    "second subscribe tick, is applied to the second probe (signature suffix :2nd-subscription). "
     "Distinct = distinct case JSON."
 )
 ASSUMPTIONS = [
@@ -574,6 +579,9 @@ def _cases(draw, max_len, forms=tuple(_WEIGHTED)):
         case["sub"] = draw_sub(draw, src, case["src2"]) if draw(st.integers(0, 2)) else 0
     else:
         case["sub"] = draw_sub(draw, src)
+    rs = draw_resub(draw, src, case.get("src2"))
+    if rs is not None:
+        case["resub"] = rs
     return case
 
 
